@@ -1085,7 +1085,7 @@ func init() {
 	f.Real = []string{"gortsplib.Client (client.go, client_media.go, client_format.go, client_reader.go, client_udp_listener.go), pkg/description, pkg/auth (sender), pkg/headers, pkg/base, pkg/conn"}
 	f.Simulated = []string{"the hostile server (scripted harness code built on pkg/base + pkg/conn)", "TCP/UDP sockets incl. UDP port-in-use failures (simnet)", "clock (fake), entropy"}
 	f.Excluded = []string{"HTTP / WebSocket tunnels and TLS towards the scripted server", "UDP-multicast"}
-	f.Rule = "scenario = client configuration (play or record; protocol forced udp / tcp or automatic; credentials in the URL or not; back channels; AnyPortEnable; seeded read/write timeouts; busy local UDP ports) x a per-request behaviour list for the scripted server: normal, one of 16 grammar/byte-level mutations of the response, field-level mutation (SDP control attributes / profiles / key-mgmt / Content-Base; Transport ports, interleaved ids, protocol, delivery, source, profile; Session; RTP-Info), dropped, duplicated or delayed response (around and beyond ReadTimeout), injected interleaved frames or server requests, close before/after the response, RST, silence, unexpected status codes incl. 401 with odd challenges, CSeq missing/wrong/duplicated, redirects (self, other host, unresolvable, non-RTSP, invalid); the client then runs its whole script regardless of errors, plus extra calls, then Close; non-trivial = at least one call returned an error and the post-Close census ran; distinct = distinct canonical event log"
+	f.Rule = "scenario = client configuration (play or record; protocol forced udp / tcp / UDP-multicast or automatic; RTSP-over-HTTP tunnel in 15%; credentials in the URL or not; back channels; AnyPortEnable; seeded read/write timeouts; busy local UDP ports) x a per-request behaviour list for the scripted server: normal, one of 16 grammar/byte-level mutations of the response, field-level mutation (SDP control attributes / profiles / key-mgmt / Content-Base; Transport ports, interleaved ids, protocol, delivery, source, profile; Session; RTP-Info), dropped, duplicated or delayed response (around and beyond ReadTimeout), injected interleaved frames or server requests, close before/after the response, RST, silence, unexpected status codes incl. 401 with odd challenges, CSeq missing/wrong/duplicated, redirects (self, other host, unresolvable, non-RTSP, invalid), flood, sticky 401, deaf-after (answers, then stops reading; bounded window), multicast-specific SETUP answers (ports past 65535, missing / unresolvable / unicast destination); the client then runs its whole script regardless of errors, plus extra calls, then Close; non-trivial = at least one call returned an error and the post-Close census ran; distinct = distinct canonical event log"
 	f.Assumptions = []string{
 		"'within its timeouts': one API call may perform several request/response exchanges (OPTIONS, the request itself, an authenticated retry, an automatic transport switch), each bounded by ReadTimeout + WriteTimeout; the bound used is 16 exchanges + budget",
 		"the client keeps running its script after errors: calls after a failure only have to return (with or without error) within the bound",
